@@ -47,13 +47,21 @@ def run(chk, tier, only_rule=None):
                 ra = rec[0].get('args') or []
                 first = A.ref_name(ra[0]) if ra else ''
                 second = A.text(ra[1]) if len(ra) > 1 else ''
-                # `first` must be a local initialised from the old member value (found branch) or from json_object_arg (absent branch)
-                for d in A.walk_no_lambda(fn['body']):
-                    if d.get('k') == 'VarDecl' and d.get('n') == first and d.get('init') is not None:
-                        dn = g.node_of(d.get('init'))
-                        if dn is not None and g.dominates(dn, nd):
-                            it = A.text(d['init'])
-                            if ('value()' in it and 'it' in it) or 'json_object_arg' in it: ok4 = True
+                # `first` must hold, on every path, the old member value (found branch) or a fresh empty object (absent branch):
+                # all definitions of the local that reach this call are of the right kind
+                found_branch = any(('end()' in t and ((lab is True and '!=' in t) or (lab is False and '==' in t))) for t, lab in guard_texts(g, nd))
+                defs = []
+                for m in g.rpo:
+                    if m.kind != 'stmt' or not isinstance(m.ast, dict): continue
+                    if m.ast.get('k') == 'DeclStmt':
+                        for d in m.ast.get('decls') or []:
+                            if d.get('n') == first and d.get('init') is not None: defs.append((m, A.text(d['init'])))
+                    am = U.assigned_member(m.ast)
+                    if am and am[0] == first: defs.append((m, A.text(am[1])))
+                reaching = [(m, t) for m, t in defs if any(g.can_reach(s2, [nd], avoid=[x for x, _ in defs if x is not m]) for s2 in m.succ) or m is nd]
+                def kind_of(t): return 'old' if ('value()' in t and 'it' in t) else ('fresh' if 'json_object_arg' in t else 'other')
+                kinds = set(kind_of(t) for m, t in reaching)
+                ok4 = bool(reaching) and kinds == ({'old'} if found_branch else {'fresh'})
                 ok4 = ok4 and 'member' in second and 'value()' in second
             if ok4: chk.ok('R16.4', site4, {'line': c.get('l')})
             else: chk.fail('R16.4', site4, fn['file'], c.get('l'), 'the inserted value is not apply_merge_patch_(old value or empty object, member.value())', None, fn['q'])
